@@ -99,8 +99,8 @@ def eval_construct(case):
         viol.append(V("caller-table-modified", "construction modified the caller's table (keys, dtypes or bytes)",
                       case=case))
     pv = fl.pvt_props
-    ms = np.asarray(pv["m-scaled"], dtype=float)
-    al = np.asarray(pv["alpha"], dtype=float)
+    ms = np.array(pv["m-scaled"], dtype=float, copy=True)  # copies: pvt_props shares its arrays with the caller's dict
+    al = np.array(pv["alpha"], dtype=float, copy=True)
     m_i = float(fl.m_i)
     if not np.all(np.diff(ms) > 0):
         viol.append(V("m-scaled/strictly-increasing", "scaled pseudopressure is not strictly increasing in pressure",
@@ -154,8 +154,40 @@ def eval_construct(case):
     at_nodes = np.asarray(fl.alpha(ms[::50]), dtype=float)
     if not np.allclose(at_nodes, al[::50], rtol=1e-12, atol=0):
         viol.append(V("lookup/at-nodes", "alpha looked up at table nodes differs from the tabulated alpha", case=case))
+    ends = np.asarray(fl.alpha(ms[[0, -1]]), dtype=float)
+    if not np.allclose(ends, al[[0, -1]], rtol=1e-12, atol=0):
+        viol.append(V("lookup/at-end-nodes", f"alpha looked up exactly at the first/last node gives {ends.tolist()}, the "
+                      f"tabulated values are {al[[0, -1]].tolist()}", case=case))
     if not lo > 0:
         viol.append(V("alpha/positive", f"min alpha {lo!r}", case=case))
+    # the wrapper is self-contained: the owner overwriting its own arrays afterwards must not change it
+    if container == "dict" and not viol:
+        ms_q = np.array(ms[::25], copy=True)  # query points must not alias the table either
+        before = (float(fl.m_scaled_func(p_i)), np.asarray(fl.alpha(ms_q), dtype=float).copy())
+        saved = {k: np.array(v, copy=True) for k, v in tb.items()}
+        for k in tb:
+            if np.asarray(tb[k]).dtype.kind == "f":
+                tb[k][...] = tb[k] * 1.37 + 11.0
+        after = (float(fl.m_scaled_func(p_i)), np.asarray(fl.alpha(ms_q), dtype=float))
+        for k in tb:
+            tb[k][...] = saved[k]
+        if before[0] != after[0] or not np.array_equal(before[1], after[1]):
+            viol.append(V("wrapper-aliases-caller-arrays", "after the caller overwrote its own table arrays in place, the "
+                          f"already built wrapper changed: m_scaled_func(p_i) {before[0]!r} -> {after[0]!r}", case=case))
+        # the owner changes a column and builds a new wrapper from the SAME table object
+        col = "alpha" if branch == "alpha" else "compressibility"
+        if col in tb and np.asarray(tb[col]).dtype.kind == "f":
+            tb[col][...] = saved[col] * 2.5
+            try:
+                fl2 = construct(branch, tb, p_i)
+                a2 = np.asarray(fl2.pvt_props["alpha"], dtype=float)
+                want2 = al * 2.5 if branch == "alpha" else al / 2.5
+                if not np.allclose(a2, want2, rtol=1e-12, atol=0):
+                    viol.append(V("rebuilt-from-modified-table", f"a wrapper rebuilt from the same table object after its "
+                                  f"{col!r} column changed still tabulates the old diffusivity (max rel diff "
+                                  f"{np.max(np.abs(a2 / want2 - 1)):.3g})", case=case))
+            finally:
+                tb[col][...] = saved[col]
     return {"violations": viol, "outcome": f"{branch}:{where}", "key": (name, container, branch, where, bool(case.get("both")))}
 
 
